@@ -239,6 +239,7 @@ def vecReserve (e : Env) (reg : Option Nat) (len cap additional : Nat) : M (Opti
   else if len + additional > isizeMax then panic     -- capacity overflow
   else do
     let newCap := vecGrowCap cap (len + additional)
+    if newCap > isizeMax then panic else     -- Layout::array fails in finish_grow: capacity overflow
     let old ← (match reg with
       | none => pure []
       | some r => do
